@@ -142,6 +142,7 @@ theorem TInv.step {c : Cfg} {s : St} (t : TInv c s) (e : Ev) : TInv c (step c s 
   | nodeDone n => exact ⟨t.clean, t.fin⟩
   | nodeFailed n => exact t
   | nodeReset n => exact t
+  | restart => exact ⟨t.clean, t.fin⟩
   | removeEmpty => exact t.frame (foldRemove_frame (fun a => (c.namesOf a).isEmpty) s.dom s)
   | cacheMap =>
     refine t.shrink (cacheMap_ran c s) (fun d h => cacheMap_disk c s ▸ h) ?_
@@ -150,7 +151,7 @@ theorem TInv.step {c : Cfg} {s : St} (t : TInv c s) (e : Ev) : TInv c (step c s 
     rw [cacheMap_final] at h'
     exact t.fin h'
   | early upto =>
-    show TInv c (if s.final then s else Martian.Vdr.cleanTmp c s (min upto 2))
+    show TInv c (if s.final then s else Martian.Vdr.cleanTmp c s (min upto 3))
     split
     · exact t
     · exact t.cleanTmp _
